@@ -40,7 +40,7 @@ func main() {
 		"(value, specification) texts. Families: bounded-exhaustive directive grammar per scalar value (flags x width x precision x 52 letters; quick tier: every third directive), " +
 		"every value x every letter of its documented set x {plain, alternate, alternate with width and precision}, " +
 		"flag order / repetition / delimiter grammar, containers x container directives, values with one container instance at several positions " +
-		"(aliasing) x container letters, integer-range edge values x radix letters x flags x widths around the unpadded length, numeric values x the float " +
+		"(aliasing) x container letters, arrays with scalar runs around container children x alternate layout x widths (array-runs), integer-range edge values x radix letters x flags x widths around the unpadded length, numeric values x the float " +
 		"verbs e E f g G a A x every flag set x precisions x widths around the unpadded length (float-shape), histories (one context " +
 		"reused over a sequence of values; a history counts once), per-type format maps, radix round trips (plain, and zero / precision / space padded " +
 		"around and beyond the digit count of a 64 bit number, through both dispatches of Integer.new), PuppetSprintf / PuppetFprintf calls with " +
